@@ -84,13 +84,34 @@ func ExtractTypeNameMap(v interface{}) (map[string]reflect.Type, map[string]stri
 		}
 		name := TypeName(typ)
 		if _, ok := typMap[name]; ok {
-			// a type is entered once; only a container whose elements are interfaces is
-			// walked again, because what those hold differs from value to value
-			if (typ.Kind() != reflect.Slice && typ.Kind() != reflect.Map) || !holdsInterface(typ) || v.IsNil() || seen[key(v)] {
+			// a type is entered once; only what can hold interfaces is walked again,
+			// because what those hold differs from value to value
+			if !holdsInterface(typ) {
+				return false
+			}
+			if typ.Kind() == reflect.Struct {
+				// (a zero struct, as made for a nil pointer, holds nothing; a struct reached
+				// through a pointer is walked once per address: cyclic values)
+				if v.IsZero() {
+					return false
+				}
+				if v.CanAddr() {
+					k := walked{addr: v.UnsafeAddr(), typ: typ}
+					if seen[k] {
+						return false
+					}
+					seen[k] = true
+				}
+				return true
+			}
+			if (typ.Kind() != reflect.Slice && typ.Kind() != reflect.Map) || v.IsNil() || seen[key(v)] {
 				return false
 			}
 			seen[key(v)] = true
 			return true
+		}
+		if typ.Kind() == reflect.Struct && v.CanAddr() {
+			seen[walked{addr: v.UnsafeAddr(), typ: typ}] = true
 		}
 		if (typ.Kind() == reflect.Slice || typ.Kind() == reflect.Map) && !v.IsNil() {
 			seen[key(v)] = true
@@ -176,6 +197,12 @@ func typeHoldsInterface(t reflect.Type, visited map[reflect.Type]bool) bool {
 		return typeHoldsInterface(t.Elem(), visited)
 	case reflect.Map:
 		return typeHoldsInterface(t.Key(), visited) || typeHoldsInterface(t.Elem(), visited)
+	case reflect.Struct:
+		for i := 0; i < t.NumField(); i++ {
+			if typeHoldsInterface(t.Field(i).Type, visited) {
+				return true
+			}
+		}
 	}
 	return false
 }
